@@ -83,7 +83,12 @@ fn cast_binary_op_q(
         }
         // 1b. minus, multiply, divide -> if we can cast self to right, and we're not a string, that's the result
         // MOD is covered later in logical operators because it's similar logic
-        Operator::Minus | Operator::Multiply | Operator::Divide => bigger_numeric_type(left, right),
+        Operator::Minus | Operator::Multiply => bigger_numeric_type(left, right),
+        // 1c. divide -> always a floating point number, even for two integers
+        Operator::Divide => bigger_numeric_type(left, right).map(|q| match q {
+            TypeQualifier::HashDouble => TypeQualifier::HashDouble,
+            _ => TypeQualifier::BangSingle,
+        }),
         // 2. relational operators
         //    if we an cast self to right, the result is -1 or 0, therefore integer
         Operator::Less
